@@ -1,4 +1,4 @@
-import Nv.Proofs.C15Generic
+import Nv.Proofs.C15Commute
 /-!
 C15 — property theorems for the mux worker group (model: `Nv.Model.C15`).
 -/
@@ -451,6 +451,129 @@ theorem mux_coherent_all_schedules (cfg : Cfg) (hd : DelOk cfg) (loc : Loc) (lru
     (hr : (qLTS cfg loc lru sized cap workers).Reach q) : Coherent q.st := by
   rw [mux_state_is_sequential_run cfg loc lru sized cap workers q hr]
   exact mux_coherent cfg hd loc lru sized cap workers q.applied
+
+
+/-! ### operations of different workers commute (audit follow-up) -/
+
+/-- states that no observer can tell apart: the same caches, the same row under every key (the store is a set of rows, the
+model's list is one representation of it) -/
+def StEq (s t : State) : Prop := s.caches = t.caches ∧ ∀ k, sGet s.store k = sGet t.store k
+
+/-- `mux_ops_of_different_workers_commute`: two operations whose keys belong to different workers can be applied in either
+order — each returns the same result and makes the same callbacks in both orders, and the two end states have the same
+caches and the same rows. So the atomic-handler granularity of `mux_coherent_all_schedules` loses nothing for handlers of
+different workers that run at the same time: every interleaving of their steps equals one of the two sequential orders,
+and those agree. (Handlers of one worker never run at the same time: `mux_one_at_a_time`.) -/
+theorem mux_ops_of_different_workers_commute (cfg : Cfg) (hd : DelOk cfg) (loc : Loc) (s : State) (a b : Op × List Bool)
+    {wa wb : Nat} (hwa : workerOf loc s.caches.length a.1.key = some wa)
+    (hwb : workerOf loc s.caches.length b.1.key = some wb) (hne : wa ≠ wb) :
+    (step cfg loc (step cfg loc s b).1 a).2 = (step cfg loc s a).2 ∧
+    (step cfg loc (step cfg loc s a).1 b).2 = (step cfg loc s b).2 ∧
+    StEq (step cfg loc (step cfg loc s a).1 b).1 (step cfg loc (step cfg loc s b).1 a).1 := by
+  have hk : a.1.key ≠ b.1.key := by
+    intro e; rw [e, hwb] at hwa; exact hne (Option.some.inj hwa).symm
+  have hla := step_caches_length cfg loc s a
+  have hlb := step_caches_length cfg loc s b
+  cases hca : s.caches[wa]? with
+  | none =>
+    have ha : ∀ t : State, t.caches.length = s.caches.length → t.caches[wa]? = none → step cfg loc t a = (t, ⟨.panic, []⟩) := by
+      intro t hl hn; unfold step; rw [hl, hwa]; simp only [hn]
+    have hlt : s.caches.length ≤ wa := List.getElem?_eq_none_iff.1 hca
+    have hb' : (step cfg loc s b).1.caches[wa]? = none := List.getElem?_eq_none_iff.2 (by rw [hlb]; exact hlt)
+    rw [ha s rfl hca, ha _ hlb hb']
+    exact ⟨rfl, rfl, rfl, fun _ => rfl⟩
+  | some ca =>
+  cases hcb : s.caches[wb]? with
+  | none =>
+    have hb : ∀ t : State, t.caches.length = s.caches.length → t.caches[wb]? = none → step cfg loc t b = (t, ⟨.panic, []⟩) := by
+      intro t hl hn; unfold step; rw [hl, hwb]; simp only [hn]
+    have hlt : s.caches.length ≤ wb := List.getElem?_eq_none_iff.1 hcb
+    have ha' : (step cfg loc s a).1.caches[wb]? = none := List.getElem?_eq_none_iff.2 (by rw [hla]; exact hlt)
+    rw [hb s rfl hcb, hb _ hla ha']
+    exact ⟨rfl, rfl, rfl, fun _ => rfl⟩
+  | some cb =>
+    -- the two handler runs from s
+    have ea := step_eq cfg loc s a hwa hca
+    have eb := step_eq cfg loc s b hwb hcb
+    have oka := handle_ok cfg hd ⟨s.store, ca, a.2, []⟩ a.1
+    have okb := handle_ok cfg hd ⟨s.store, cb, b.2, []⟩ b.1
+    -- b after a
+    have hwb1 : workerOf loc (step cfg loc s a).1.caches.length b.1.key = some wb := by rw [hla]; exact hwb
+    have hcb1 : (step cfg loc s a).1.caches[wb]? = some cb := by
+      rw [ea]; simp only; rw [List.getElem?_set_ne hne]; exact hcb
+    have eb1 := step_eq cfg loc (step cfg loc s a).1 b hwb1 hcb1
+    have nb : Near b.1.key ⟨s.store, cb, b.2, []⟩ ⟨(step cfg loc s a).1.store, cb, b.2, []⟩ := by
+      refine ⟨rfl, rfl, rfl, ?_⟩
+      rw [ea]; exact oka.frame _ (Ne.symm hk)
+    have sb := handle_near cfg b.1 nb
+    have okb1 := handle_ok cfg hd ⟨(step cfg loc s a).1.store, cb, b.2, []⟩ b.1
+    -- a after b
+    have hwa2 : workerOf loc (step cfg loc s b).1.caches.length a.1.key = some wa := by rw [hlb]; exact hwa
+    have hca2 : (step cfg loc s b).1.caches[wa]? = some ca := by
+      rw [eb]; simp only; rw [List.getElem?_set_ne (Ne.symm hne)]; exact hca
+    have ea2 := step_eq cfg loc (step cfg loc s b).1 a hwa2 hca2
+    have na : Near a.1.key ⟨s.store, ca, a.2, []⟩ ⟨(step cfg loc s b).1.store, ca, a.2, []⟩ := by
+      refine ⟨rfl, rfl, rfl, ?_⟩
+      rw [eb]; exact okb.frame _ hk
+    have sa := handle_near cfg a.1 na
+    have oka2 := handle_ok cfg hd ⟨(step cfg loc s b).1.store, ca, a.2, []⟩ a.1
+    refine ⟨?_, ?_, ?_, ?_⟩
+    · rw [ea2, ea]; simp only [sa.1, sa.2.trace]
+    · rw [eb1, eb]; simp only [sb.1, sb.2.trace]
+    · rw [eb1, ea2]
+      simp only [sb.2.cache, sa.2.cache]
+      rw [ea, eb]
+      simp only
+      exact List.set_comm _ _ hne
+    · intro k
+      rw [eb1, ea2]
+      simp only
+      by_cases h1 : k = a.1.key
+      · subst h1
+        rw [okb1.frame _ hk, sa.2.row]
+        rw [ea]
+      · by_cases h2 : k = b.1.key
+        · subst h2
+          rw [oka2.frame _ h1, sb.2.row]
+          rw [eb]
+        · rw [okb1.frame k h2, oka2.frame k h1]
+          rw [ea, eb]
+          simp only
+          rw [oka.frame k h1, okb.frame k h2]
+
+/-- `StEq` is a congruence for the group: from indistinguishable states every operation returns the same result, makes the
+same callbacks and leads to indistinguishable states — so the two orders of `mux_ops_of_different_workers_commute` stay
+indistinguishable under everything that follows -/
+theorem mux_step_respects_steq (cfg : Cfg) (hd : DelOk cfg) (loc : Loc) (s t : State) (inp : Op × List Bool) (h : StEq s t) :
+    (step cfg loc t inp).2 = (step cfg loc s inp).2 ∧ StEq (step cfg loc s inp).1 (step cfg loc t inp).1 := by
+  obtain ⟨hc, hs⟩ := h
+  cases hw : workerOf loc s.caches.length inp.1.key with
+  | none =>
+    have e1 : step cfg loc s inp = (s, ⟨.panic, []⟩) := by unfold step; simp only [hw]
+    have e2 : step cfg loc t inp = (t, ⟨.panic, []⟩) := by unfold step; rw [← hc]; simp only [hw]
+    rw [e1, e2]; exact ⟨rfl, hc, hs⟩
+  | some w =>
+    cases hca : s.caches[w]? with
+    | none =>
+      have e1 : step cfg loc s inp = (s, ⟨.panic, []⟩) := by unfold step; simp only [hw, hca]
+      have e2 : step cfg loc t inp = (t, ⟨.panic, []⟩) := by unfold step; rw [← hc]; simp only [hw, hca]
+      rw [e1, e2]; exact ⟨rfl, hc, hs⟩
+    | some ca =>
+      have e1 := step_eq cfg loc s inp hw hca
+      have e2 := step_eq cfg loc t inp (by rw [← hc]; exact hw) (by rw [← hc]; exact hca)
+      have n : Near inp.1.key ⟨s.store, ca, inp.2, []⟩ ⟨t.store, ca, inp.2, []⟩ := ⟨rfl, rfl, rfl, (hs _).symm⟩
+      have sm := handle_near cfg inp.1 n
+      have ok1 := handle_ok cfg hd ⟨s.store, ca, inp.2, []⟩ inp.1
+      have ok2 := handle_ok cfg hd ⟨t.store, ca, inp.2, []⟩ inp.1
+      rw [e1, e2]
+      refine ⟨?_, ?_, ?_⟩
+      · simp only [sm.1, sm.2.trace]
+      · simp only [sm.2.cache, hc]
+      · intro k
+        simp only
+        by_cases hk : k = inp.1.key
+        · subst hk; exact sm.2.row.symm
+        · rw [ok1.frame k hk, ok2.frame k hk]; exact hs k
 
 
 /-! ### one consumer per worker: handlers of one worker never run at the same time (audit follow-up) -/
